@@ -156,13 +156,96 @@ def python_literals(em):
     # linearization_error: 0.125 * degree * (degree - 1) * worst_case
     try:
         fn = _func(tree("geometric_intersection"), "linearization_error")
-        consts = [n.value for n in ast.walk(fn) if isinstance(n, ast.Constant) and isinstance(n.value, float)]
+        consts = []
+        for st in ast.walk(fn):
+            if isinstance(st, ast.Assign) and isinstance(st.targets[0], ast.Name) and st.targets[0].id == "multiplier":
+                consts = [n.value for n in ast.walk(st.value) if isinstance(n, ast.Constant) and isinstance(n.value, float)]
         if len(consts) == 1:
             em.rat("py_linearization_factor", Fr(consts[0]))
         else:
             em.problem("linearization_error literals: %r" % (consts,))
     except Exception as exc:  # noqa
         em.problem("py linearization factor: %r" % (exc,))
+
+
+def python_shoelace(em, pkg):
+    """`shoelace_for_area`: which table and which scale factor is used for which number of nodes"""
+    try:
+        import importlib
+        mod = importlib.import_module("bezier.hazmat.triangle_helpers")
+        with open(os.path.join(REPO, "src/python/bezier/hazmat/triangle_helpers.py")) as fh:
+            fn = _func(ast.parse(fh.read()), "shoelace_for_area")
+        found = {}
+        for node in ast.walk(fn):
+            if isinstance(node, ast.If) and isinstance(node.test, ast.Compare) and isinstance(node.test.left, ast.Name) \
+                    and node.test.left.id == "num_nodes" and isinstance(node.test.ops[0], ast.Eq):
+                nn = node.test.comparators[0].value
+                tab = scale = None
+                for st in node.body:
+                    if isinstance(st, ast.Assign) and st.targets[0].id == "shoelace":
+                        tab = getattr(mod, st.value.id)
+                    if isinstance(st, ast.Assign) and st.targets[0].id == "scale_factor":
+                        scale = st.value.value
+                found[nn] = (tab, scale)
+        for nn, (tab, scale) in sorted(found.items()):
+            em.mat("py_shoelace_%d" % nn, [[Fr(x) for x in t] for t in tab])
+            em.rat("py_shoelace_scale_%d" % nn, Fr(scale))
+        em.row("py_shoelace_supported", [Fr(k) for k in sorted(found)])
+    except Exception as exc:  # noqa
+        em.problem("py shoelace: %r" % (exc,))
+
+
+def fortran_shoelace(em):
+    try:
+        lines = fortran_lines("triangle")
+        inside = False
+        branch = None
+        found = {}
+        for line in lines:
+            if line.startswith("subroutine shoelace_for_area"):
+                inside = True
+                continue
+            if line.startswith("end subroutine shoelace_for_area"):
+                break
+            if not inside:
+                continue
+            m = re.match(r"(?:else )?if \(num_nodes == (\d+)\) then", line)
+            if m:
+                branch = int(m.group(1))
+                found[branch] = [[], None]
+                continue
+            if re.match(r"else\b", line):
+                branch = None
+                continue
+            if branch is None:
+                continue
+            m = re.match(r"shoelace = shoelace / (\d+)$", line)
+            if m:
+                found[branch][1] = int(m.group(1))
+                continue
+            if line.startswith("shoelace = ("):
+                body = line[len("shoelace = ("):]
+                pos = 0
+                rx = re.compile(r"\s*(?:(\d+) \* )?\(nodes\(1, (\d+)\) \* nodes\(2, (\d+)\) - nodes\(2, (\d+)\) \* nodes\(1, (\d+)\)\)\s*(\+|\)$)")
+                bare = re.fullmatch(r"\s*nodes\(1, (\d+)\) \* nodes\(2, (\d+)\) - nodes\(2, (\d+)\) \* nodes\(1, (\d+)\)\)", body)
+                if bare and bare.group(1) == bare.group(3) and bare.group(2) == bare.group(4):
+                    found[branch][0].append([Fr(1), Fr(int(bare.group(1)) - 1), Fr(int(bare.group(2)) - 1)])
+                    pos = len(body)
+                while pos < len(body):
+                    m = rx.match(body, pos)
+                    if not m:
+                        raise ValueError("unparsed shoelace term at %r" % body[pos:pos + 60])
+                    c, a1, b1, a2, b2, sep = m.groups()
+                    if a1 != a2 or b1 != b2:
+                        raise ValueError("not a cross term: " + m.group(0))
+                    found[branch][0].append([Fr(int(c or 1)), Fr(int(a1) - 1), Fr(int(b1) - 1)])
+                    pos = m.end()
+        for nn, (terms, scale) in sorted(found.items()):
+            em.mat("f90_shoelace_%d" % nn, terms)
+            em.rat("f90_shoelace_scale_%d" % nn, Fr(scale))
+        em.row("f90_shoelace_supported", [Fr(k) for k in sorted(found)])
+    except Exception as exc:  # noqa
+        em.problem("f90 shoelace: %r" % (exc,))
 
 
 # ------------------------------------------------------------------ fortran
@@ -522,6 +605,8 @@ def main():
     em = Emit()
     python_constants(em, pkg)
     python_literals(em)
+    python_shoelace(em, pkg)
+    fortran_shoelace(em)
     fortran_parameters(em)
     fortran_literals(em)
     fortran_tables(em)
